@@ -83,7 +83,30 @@ def run_C15(ctx, rep):
     return {'cov': {'exhaustive': True, 'witness_tier': ctx.tier}}
 
 
+def run_C01(ctx, rep):
+    n = gen_driver.run_tv(ctx, rep, floors={'R1': 200, 'R2': 190, 'R3': 80, 'R5': 350})
+    gen_driver.run_gen(ctx, rep, ['G1G3', 'G2G7', 'G5', 'G8', 'G12', 'UI'], floors={'G1': 300, 'G5': 250, 'G12': 40})
+    lib_rules.check_L13(ctx, rep)
+    lib_rules.check_L4(ctx, rep)
+    lib_rules.check_L7(ctx, rep)
+    return {'cov': {'disagreements_checked': n}}
+
+
 PROPS = {
+    'C01': {
+        'run': run_C01, 'level': 'translation_validation',
+        'explanation': 'static translation validation of the generated evaluation code of every corpus program against its logical spec (derived '
+                       'independently from the program text, without any planning decision): R1 every rule-variant closure is reconstructed '
+                       'into the conjunctive query it evaluates (relation, version, index key terms, bound columns, conditions, generators, heads; '
+                       'variable identity through binding ids + union-find) and must equal a rule of the program; R2 the variants cover all '
+                       'delta/total assignments of the recursive clauses (n<=4) except all-total; R3 both run-time join orders evaluate the same '
+                       'rule; R5 stratum order / looping; plus the protocol the derivations go through: guarded insertion and index maintenance '
+                       '(G1,G3), change flag and loop exit (G2), version shift (G5), re-indexing first (G8), sound empty-relation shortcut (G12, L13), '
+                       'merge and combined-view obligations of the library (L4, L7). For all inputs; programs bounded by the corpus.',
+        'assumptions': ['the std / hashbrown / dashmap containers behave as maps', 'termination is not decided', 'programs outside the corpus matrix are not covered'],
+        'rule_text': 'one instance = one reconstructed rule variant (R1), one rule\'s version cover (R2), one plan choice (R3), one dependency (R5), one protocol site (G*)',
+        'technique': 'static translation validation: typed-HIR reconstruction of generated rule code vs. independently parsed rule text; no execution',
+    },
     'C15': {
         'run': run_C15, 'corpus': False, 'facts': False, 'level': 'other',
         'explanation': 'compile-fail witnesses decided by the stable Rust compiler (nothing is run): for each ill-formedness kind of the property '
